@@ -820,7 +820,7 @@ def apply_edit(world: World, project: dict, edit: list, ses: Session | None = No
                  clock=_logical_ns())
 
 
-CPU_LIMIT = float(os.environ.get("VERIF_DIRECTOR_CPU_LIMIT", "180"))
+CPU_LIMIT = float(os.environ.get("VERIF_DIRECTOR_CPU_LIMIT", "45"))
 
 
 class RunResult:
